@@ -20,7 +20,8 @@ PROP = dict(
     ],
     rule=("timer: a seeded history over 1-8 event::TimerEvent slots on a real loop (epoll for even, select for odd case numbers) under a "
           "virtual monotonic clock that starts at 0, near 2^31/2^32 ms, 2^32 s, 2^53, ~2^62 or a random large value; intervals from a "
-          "per-case palette (one value only = everything ties; {1,2,3}; harmonic {5,10,20,40}; {1,1,2,50}; six random values in 1..50); "
+          "per-case palette (one value only = everything ties; {1,2,3}; harmonic {5,10,20,40}; {1,1,2,50}; far-away deadlines {2^31-1, 2^31, "
+          "2^31+1, 2^32+7, 30 days, 3*2^31+5, 1, 40} ms; six random values in 1..50); "
           "5-26 steps of 0-3 operations (create+initialize, enable, disable, restart, re-initialise with a new interval/mode, destroy, "
           "enable while enabled, disable while disabled) followed by a clock advance drawn from {0, 1, d-1, d, d+1, k*d+r with k<=10, "
           "exactly to the nearest deadline, one ms before it, exactly to one timer's deadline, beyond every deadline} and one loop "
@@ -32,7 +33,10 @@ PROP = dict(
           "with 5/70/140 short-lived timers (cabinet slot and pooled-record reuse, beyond the pool's retention of 64). Every callback "
           "is judged when it arrives (armed in the model, clock >= t_enable+k*d, no armed timer with an earlier deadline, one-shot "
           "already reports disabled); after every pass no armed timer may have a deadline <= the clock the pass started with and "
-          "isEnabled() of every timer equals the model; getWaitTime() read before a pass must lie in [0, nearest deadline - now]. "
+          "isEnabled() of every timer equals the model; getWaitTime() read before a pass, and the timeout the loop actually passes to "
+          "epoll_wait()/select() (the harness defines both functions, records the argument and forwards a zero timeout to the kernel; "
+          "half of the kOnce passes run without a pending task so that the loop computes a real timeout), must lie in "
+          "[0, nearest deadline - now]. "
           "pool: the same protocol through eventx::TimerPool (doEvery, doAfter, cancel of live / already fired / already cancelled / "
           "pre-cleanup tokens, cancel of itself or of a timer due in the same pass from a callback, cleanup outside and inside "
           "callbacks followed by new timers). exhaustive: three timers, every assignment of {one-shot, persistent} x d in {1,2,3} "
@@ -52,15 +56,16 @@ PROP = dict(
         "the running interval; both are what the code documents by construction, the property text is silent on them",
         "a TimerEvent is never deleted from inside its own callback (TBOX_ASSERT by design): self-destruction is generated as a deferred "
         "runNext task; a TimerPool is never destroyed from inside one of its callbacks; intervals are >= 1 ms; doAt (wall clock) is not driven",
-        "the epoll_wait/select timeout itself is not timed: 'sleeps no longer than the nearest deadline' is observed through a probe "
-        "subclass calling the protected CommonLoop::getWaitTime() before passes, and in the realtime leg only as 'a loop that never "
-        "wakes is a hang'; lateness against the wall clock is never judged",
+        "the kernel wait is not timed: 'sleeps no longer than the nearest deadline' is observed (a) through a probe subclass calling the "
+        "protected CommonLoop::getWaitTime() before passes, (b) as the timeout argument the loop hands to epoll_wait()/select(), seen by "
+        "harness-defined functions of those names that forward to the raw system calls with a zero timeout under the virtual clock, and "
+        "(c) in the realtime leg only as 'a loop that never wakes is a hang'; lateness against the wall clock is never judged",
         "realtime leg: only implications that hold under any machine load are checked (callback not before enable+k*d on steady_clock; "
         "every deadline strictly before the exit timer's has been served when runLoop returns, because the heap serves it first)",
     ],
     technique=("lock-step reference model (list of armed deadlines) judging every timer callback of the real loop under a virtual "
                "monotonic clock, random and exhaustively enumerated histories incl. mutations from inside callbacks, ASan+UBSan "
-               "with poisoned pooled timer records; protected getWaitTime() probed; a small real-clock leg"),
+               "with poisoned pooled timer records; protected getWaitTime() and the kernel timeout argument observed; a small real-clock leg"),
     level_text=("Every timer callback of every generated history is compared, at the moment it arrives, with an independent model of "
                 "armed deadlines while the loop runs on a harness-driven clock (both back-ends, loop driven pass by pass and from inside "
                 "runLoop); all scripts of 3 (quick) / 4 (thorough) symbols over three timers with every interval/mode assignment and "
@@ -87,6 +92,8 @@ PROP = dict(
         "oneshot_isenabled_false_in_callback_checked",
         # loop sleeps no longer than the nearest deadline
         "wait_time_equals_distance_to_nearest_deadline", "wait_time_zero_with_overdue_timer", "rt_lower_bound_checked",
+        "kernel_waits_observed", "once_pass_without_pending_task", "kernel_wait_positive_timeout_within_bound",
+        "palette_with_intervals_beyond_2^31_ms", "kernel_wait_with_nearest_deadline_beyond_2^31_ms",
         # TimerPool
         "op_cancel_live", "op_cancel_stale_token", "op_cancel_token_from_before_cleanup", "cb_cancel_other_due_in_same_pass",
         "cb_cancel_self_persistent", "cb_cancel_self_oneshot_already_fired", "op_cleanup_with_live_timers", "op_cleanup_inside_pass",
